@@ -171,3 +171,36 @@ func (s *stream) corrupt(off int, x byte) bool {
 	s.inflight[off%len(s.inflight)] ^= x
 	return true
 }
+
+// corruptFramedMy is corruptFramed for MySQL framing (3-byte little-endian length, sequence number, payload):
+// a bit flip inside the payload of one in-flight packet, or (tiny >= 0) the packet cut down to its first
+// `tiny` payload bytes with a matching length field, so that later packets stay framed.
+func (s *stream) corruptFramedMy(pick int, mask byte, tiny int) bool {
+	s.mu.Lock()
+	defer s.mu.Unlock()
+	type frame struct{ start, payload, end int }
+	var frames []frame
+	for off := 0; off+4 <= len(s.inflight); {
+		n := int(s.inflight[off]) | int(s.inflight[off+1])<<8 | int(s.inflight[off+2])<<16
+		if off+4+n > len(s.inflight) {
+			break
+		}
+		frames = append(frames, frame{off, off + 4, off + 4 + n})
+		off += 4 + n
+	}
+	if len(frames) == 0 {
+		return false
+	}
+	f := frames[pick%len(frames)]
+	if tiny >= 0 {
+		keep := min(tiny, f.end-f.payload)
+		s.inflight[f.start], s.inflight[f.start+1], s.inflight[f.start+2] = byte(keep), 0, 0
+		s.inflight = append(s.inflight[:f.payload+keep], s.inflight[f.end:]...)
+		return true
+	}
+	if f.end == f.payload {
+		return false
+	}
+	s.inflight[f.payload+(pick/7)%(f.end-f.payload)] ^= mask
+	return true
+}
